@@ -16,6 +16,66 @@ theorem findVar_declare_same (c : TCtx) (env : Env) (n : String) (v : VarInfo) :
     findVar c (env.declare n v) n = some v := by
   simp [findVar, Env.find_declare_same]
 
+theorem Env.find_declare_other (env : Env) (n m : String) (v : VarInfo) (h : n ≠ m) :
+    (env.declare m v).find n = env.find n := by
+  have hb : (n == m) = false := beq_false_of_ne h
+  cases env with
+  | nil => simp [Env.declare, Env.find, List.lookup, hb]
+  | cons s rest => simp [Env.declare, Env.find, List.lookup, hb]
+
+theorem findVar_declare_other (c : TCtx) (env : Env) (n m : String) (v : VarInfo) (h : n ≠ m) :
+    findVar c (env.declare m v) n = findVar c env n := by
+  simp [findVar, Env.find_declare_other env n m v h]
+
+/-- one statement changes the environment by at most ONE declaration, of a name that was not visible, placed in
+    the innermost scope; whatever its nested blocks declare is dropped when they end -/
+def EnvStep (c : TCtx) (env env' : Env) : Prop :=
+  env' = env ∨ ∃ m info, findVar c env m = none ∧ env' = env.declare m info
+
+theorem declareIfNew_step (c : TCtx) (env : Env) (n : String) (many : Bool) (kl : String) :
+    EnvStep c env (declareIfNew c env n many kl) := by
+  unfold declareIfNew
+  cases h : findVar c env n with
+  | some v => exact Or.inl rfl
+  | none =>
+    simp only
+    split
+    · exact Or.inr ⟨n, _, h, rfl⟩
+    · exact Or.inr ⟨n, _, h, rfl⟩
+
+theorem declareEvent_step (c : TCtx) (env : Env) (v : String) : EnvStep c env (declareEvent c env v) := by
+  unfold declareEvent
+  cases h : findVar c env v with
+  | some _ => exact Or.inl rfl
+  | none => exact Or.inr ⟨v, _, h, rfl⟩
+
+theorem walkStmt_step (c : TCtx) (env : Env) (s : Stmt) : EnvStep c env (walkStmt c env s).1 := by
+  cases s with
+  | assign l r =>
+    simp only [walkStmt]
+    cases hl : lvalueRoot l with
+    | none => exact Or.inl rfl
+    | some n =>
+      simp only
+      cases hf : findVar c env n with
+      | some v => exact Or.inl rfl
+      | none => exact Or.inr ⟨n, _, hf, rfl⟩
+  | ret e => cases e <;> exact Or.inl rfl
+  | create v kl => simpa [walkStmt] using declareIfNew_step c env v false kl
+  | selFrom card v kl => simpa [walkStmt] using declareIfNew_step c env v (isMany card) kl
+  | selFromW card v kl w => simpa [walkStmt] using declareIfNew_step c env v (isMany card) kl
+  | selRel card v h chain => simpa [walkStmt] using declareIfNew_step c env v (isMany card) (lastKl chain)
+  | selRelW card v h chain w => simpa [walkStmt] using declareIfNew_step c env v (isMany card) (lastKl chain)
+  | forEach v s b => simpa [walkStmt] using declareIfNew_step c env v false _
+  | createEvt v l m d tgt => simpa [walkStmt] using declareEvent_step c env v
+  | _ => exact Or.inl rfl
+
+theorem declare_shape (env : Env) (hne : env ≠ []) (m : String) (info : VarInfo) :
+    ∃ top, env.declare m info = top :: env.tail := by
+  cases env with
+  | nil => exact absurd rfl hne
+  | cons s rest => exact ⟨(m, info) :: s, rfl⟩
+
 /-- the R603 subtype instances `accept_<Statement>Node` leaves related to the statement's ACT_SMT -/
 def stmtSubtypes : Stmt → List String
   | .assign _ _ => ["ACT_AI"]
@@ -42,6 +102,9 @@ def stmtSubtypes : Stmt → List String
   | .invoke (.call .classop _ _ _) => ["ACT_TFM"]
   | .invoke (.icall _ _ _) => ["ACT_TFM"]
   | .invoke _ => []          -- `accept_InvocationStatementNode` of anything else relates no subtype
+  | .genEvt _ _ _ _ => ["E_ESS"]
+  | .createEvt _ _ _ _ _ => ["E_ESS"]
+  | .genPre _ => ["E_GPR"]
 
 /-- R801 subtype instances created for the value of an expression, and those deleted again
     (`migrate_instance` / `migrate_instance_set` replace the V_TVL of a first-assigned instance variable) -/
